@@ -41,6 +41,9 @@ def cases(tier, seed):
     if tier == "thorough":
         evsets += [[["offer", "b"], ["offer", "c"]], [["offer", "a"], ["stop", "a"], ["offer", "a"]], [["offer", "c"], ["stop", "c"]]]
     out = []
+    # two live offers (infinite TTL) match the wildcard filter, one goes away again
+    out.append({"h": "H13", "filters": ["f_any"], "rep": 2, "base": 10, "evs": [["offer", "a"], ["offer", "b"], ["stop", "a"]], "inf": True, "_w": 12})
+    out.append({"h": "H13", "filters": ["f_any", "f_maj"], "rep": 1, "base": 10, "evs": [["offer", "b"], ["offer", "a"], ["stop", "b"]], "inf": True, "_w": 12})
     for fs in fsets:
         for R in ((0, 1, 2, 4) if tier == "thorough" else (0, 1, 2)):
             for base in (10, 40):
@@ -94,7 +97,10 @@ def h13(E, M, case):
         s = SERVICES[ev[1]]
         sess["P"] += 1
         if ev[0] == "offer":
-            ttl = E.int("ttl%d" % i, 1, 3) if not E.flag("forever%d" % i) else TTL_FOREVER
+            if case.get("inf"):
+                ttl = TTL_FOREVER
+            else:
+                ttl = E.int("ttl%d" % i, 1, 3) if not E.flag("forever%d" % i) else TTL_FOREVER
             offers.append({"svc": ev[1], "t": t, "ttl": ttl, "stop": None})
         else:
             ttl = 0
